@@ -69,6 +69,54 @@ def run_seq(ctx, rp, tag, kinds, void=False, coro=False, strict=False, max_emit=
     return res
 
 
+# ---- concurrent part: spec/Signal/SignalConc.tla replayed by harness/signal_conc_replay.cpp ----
+CKCONST = {"prel": "PreL", "thrl": "ThrL", "precbt": "PreCbT", "precbf": "PreCbF", "thrcbt": "ThrCbT", "thrcbf": "ThrCbF"}
+CKPREFIX = {"prel": "p", "thrl": "l", "precbt": "a", "precbf": "b", "thrcbt": "t", "thrcbf": "f"}
+CONC_ACTIONS = ["CXchg", "CDrop"]
+
+
+def conc_chain(st):
+    out = []
+    n = st["slot"]
+    while n != "null" and len(out) < 10:
+        out.append(n)
+        n = st["nxt"][n]
+    return out
+
+
+def run_conc(ctx, rpc, tag, kinds, nemit=2, form="rvalue", max_paths=None, extra_random=0):
+    nm = {"%s%d" % (CKPREFIX[k], i + 1): k for i, k in enumerate(kinds)}
+    consts = {}
+    for k, cname in CKCONST.items():
+        consts[cname] = "{" + ", ".join(n for n, kk in nm.items() if kk == k) + "}"
+    consts["NEmit"] = nemit
+    consts["Form"] = '"%s"' % form
+    cbs = [n for n, k in nm.items() if "cb" in k]
+
+    def hdr(k, st0):
+        return {"form": form, "nemit": nemit, "kinds": nm, "order": list(reversed(conc_chain(st0)))}
+
+    def pj(st):
+        lst = st["lst"] or {}
+        pend = {"C": st["cpc"]}
+        pend.update(st["tpc"] or {})
+        return {
+            "chain": conc_chain(st), "refs": st["refs"], "cur": st["cur"], "stor": st["stor"], "cvar": st["cvar"],
+            "lst": lst, "received": st["received"] or {}, "pend": pend, "casn": st["casn"],
+            "exp": {l: st["nxt"][l] for l in lst if lst[l] == "casing"},
+            "cblive": {c: (1 if lst[c] in ("casing", "waiting", "out") else 0) for c in cbs},
+        }
+    must = list(CONC_ACTIONS)
+    if nemit > 0:
+        must.append("CEmit")
+    if any(k.startswith("thr") for k in kinds):
+        must += ["TStart", "TCas"]
+    res, g = graph_replay(ctx, "Signal", "SignalConc", "SignalConc_base.cfg", tag, rpc, pj, header_fn=hdr,
+                          constants=consts, must_take=must, max_paths=max_paths, extra_random=extra_random,
+                          tlc_kw={"workers": 4})
+    return res
+
+
 def run_jobs(ctx, jobs, par=3):
     errs = []
 
@@ -88,14 +136,20 @@ def run_jobs(ctx, jobs, par=3):
 def run(ctx):
     rp = vlib.compile_harness(os.path.join(vlib.VERIF, "harness/signal_replay.cpp"), "signal_replay",
                               sanitize=not ctx.quick)
+    rpc = vlib.compile_harness(os.path.join(vlib.VERIF, "harness/signal_conc_replay.cpp"), "signal_conc_replay",
+                               sanitize=not ctx.quick)
     jobs = []
 
     def seq(tag, kinds, **kw):
         jobs.append(lambda: run_seq(ctx, rp, tag, kinds, **kw))
+
+    def conc(tag, kinds, **kw):
+        jobs.append(lambda: run_conc(ctx, rpc, tag, kinds, **kw))
     if ctx.quick:
         ctx.exhaustive = False
         seq("n_lgo", ["loop", "gated", "cbonce"], max_emit=2, max_paths=400, extra_random=100)
         seq("c_lgt", ["loop", "gated", "cbt"], coro=True, max_emit=2, max_paths=400, extra_random=100)
+        conc("x_plt", ["prel", "thrl", "thrcbt"], nemit=2)
     else:
         seq("n_lgo", ["loop", "gated", "cbonce"], max_emit=3)
     run_jobs(ctx, jobs)
